@@ -444,7 +444,9 @@ class DictArithmetic(dict):
 
         """
         if isinstance(other, dict):
-            for k, v in other.items():
+            # tuple: ``other`` may be ``self`` (``d -= d``), whose entries are
+            # removed as they become zero.
+            for k, v in tuple(other.items()):
                 self[k] -= v
         else:
             self[()] -= other
